@@ -468,7 +468,13 @@ func genCmds(r *rand.Rand, depth int) []*CmdNode {
 			others = append(others, c)
 		}
 	}
-	return append(tagged, others...)
+	all := append(tagged, others...)
+	if len(all) >= 2 && chance(r, 0.12) {
+		// two sibling commands that share an alias: the word selects the one declared later, every time
+		all[0].Aliases = append(all[0].Aliases, "dup")
+		all[len(all)-1].Aliases = append(all[len(all)-1].Aliases, "dup")
+	}
+	return all
 }
 
 func fixDelims(g *GroupNode) {}
